@@ -1451,3 +1451,75 @@ def index_size_twin(ctx):
     else:
         ctx.violation(key, ff.loc(fsites[0][2]), 'index writer encodes %s; footer counts %s' % (
             ['%s%s' % (a[:40], ' (per record)' if il else '') for a, il in want], ['%s%s' % (a[:40], ' (per record)' if il else '') for a, il in got]))
+
+
+@rule('VALIDATE-PARITY-LCLP', ['C19'], floor=1)
+def validate_parity_lclp(ctx):
+    """LZMA2 (and therefore .xz) limits lc + lp to 4: the LZMA2 reader rejects a properties byte with a larger
+    sum. The writers that emit LZMA2 must refuse (or never produce) such a combination, otherwise they report
+    success for a stream their own reader rejects."""
+    F = ctx.facts
+
+    def opname(f, op):
+        """debug / field name of an operand (through one copy)"""
+        p = op_place(op)
+        if p is None:
+            return None
+        for pe in reversed(p['p']):
+            if isinstance(pe, dict) and pe.get('n'):
+                return pe['n']
+        nm = f.locals[p['l']].get('name')
+        if nm:
+            return nm
+        for (bi, si, k, node) in f.whole_defs(p['l']):
+            if k == 'assign' and node['rv']['r'] in ('use', 'cast'):
+                return opname(f, node['rv']['o'])
+        return None
+
+    def sum_check(f):
+        # a comparison of (lc + lp) with 4 / 5 that feeds a branch
+        adds = {}
+        for bi, b in enumerate(f.blocks):
+            for st in b['stmts']:
+                if st['k'] == 'assign' and st['rv']['r'] == 'bin' and st['rv']['op'].startswith('Add'):
+                    if {opname(f, st['rv']['a']), opname(f, st['rv']['b'])} == {'lc', 'lp'}:
+                        adds[st['lhs']['l']] = bi
+        if not adds:
+            return None
+        for bi, b in enumerate(f.blocks):
+            for st in b['stmts']:
+                if st['k'] == 'assign' and st['rv']['r'] == 'bin' and st['rv']['op'] in ('Gt', 'Ge', 'Lt', 'Le'):
+                    for x, y in ((st['rv']['a'], st['rv']['b']), (st['rv']['b'], st['rv']['a'])):
+                        if const_val(y) in (4, 5):
+                            p = op_place(x)
+                            if p is None:
+                                continue
+                            l = p['l']
+                            # `_s.0` of the checked add, possibly through a move
+                            srcs = {l}
+                            for (b2, s2, k2, n2) in f.whole_defs(l):
+                                if k2 == 'assign' and n2['rv']['r'] == 'use' and op_place(n2['rv']['o']):
+                                    srcs.add(op_place(n2['rv']['o'])['l'])
+                            if srcs & set(adds):
+                                return bi
+        return None
+    reader = None
+    for f in F.fns:
+        if f.self_adt and last_seg(f.self_adt) == 'LZMA2Reader' and f.kind != 'closure':
+            s = sum_check(f)
+            if s is not None:
+                reader = (f, s)
+    if reader is None:
+        return ctx.anchor_missing('lc + lp limit check in the LZMA2 reader')
+    key = 'LZMA2-writers:lc+lp<=4'
+    writers = []
+    for f in F.fns:
+        if f.kind != 'closure' and f.self_adt and last_seg(f.self_adt) in ('LZMA2Writer', 'XZWriter', 'LZMA2WriterMT', 'LZMAOptions', 'LZMA2Options'):
+            s = sum_check(f)
+            if s is not None:
+                writers.append((f, s))
+    if writers:
+        ctx.ok(key, writers[0][0].loc(writers[0][1]), 'the sum is checked in %s' % writers[0][0].key)
+    else:
+        ctx.violation(key, reader[0].loc(reader[1]), 'the reader rejects lc + lp > 4 (%s) but no LZMA2/XZ writer or option setter checks the sum: '
+                      'lc = 3, lp = 2 (each inside its own range) is written successfully and cannot be decoded' % reader[0].key)
